@@ -1,6 +1,6 @@
 """C07 — the typing verdict matches the declarative session type system.
 Proof: spec/Typing.v (the adjoint semi-axiomatic judgement, Inductive), proofs/TypingSound*.v and
-proofs/TypingComplete*.v: the checker MODEL accepts a program iff it is derivable (all 21 rules, both
+proofs/TypingComplete*.v: the checker MODEL accepts a program iff it is derivable (all 22 rules, both
 directions, no bound).  Tie: the verdict of the real typechecker (probe tc) is compared with the verdict
 of the extracted model (model tc) on every text of three streams: the repository's own programs, lexical
 edits of them, and type-level edits (identifier / label / mode / connective / statement edits that
@@ -173,7 +173,7 @@ def run(b, ps, tier, seed):
     # a verdict disagreement is a failing input of C07 (the model's verdict is the declarative one, by theorem)
     verdict_mism = [m for m in mism if accept_bit(m[3]) != accept_bit(m[4])]
     other_mism = [m for m in mism if accept_bit(m[3]) == accept_bit(m[4])]
-    for i, k, t, a, m in verdict_mism[:5]:
+    for i, k, t, a, m in verdict_mism[:3]:
         want = (first_word(a), first_word(m))
 
         def still(x, _b=b, _w=want):
@@ -253,7 +253,7 @@ def run(b, ps, tier, seed):
                 "Tc.v / TcTop.v model process/typechecker.go as repaired by the fix: commits; the model is tied to the code by this correspondence run only"],
             "trusted_extra": ["correspondence: probe tc (real ParseString + Typecheck) vs extracted model (parse_string + typecheck) on the same texts; "
                               "extraction: ExtrOcamlBasic, ExtrOcamlString",
-                              "spec/Typing.v is the statement of the type system (read it: 21 rules + branches + arguments + context split + ProgOK)"]}
+                              "spec/Typing.v is the statement of the type system (read it: 22 rules + branches + arguments + context split + ProgOK)"]}
 
 
 def replay(b, path):
